@@ -19,6 +19,10 @@ def run(ctx):
     # copula index surviving reset_to)
     import c08 as _c08
     _c08.rule_S_FIELDS(ctx)
+    # naming-law lints over the modules this property lives in (sibling slips: truth<->budget, stamp<->punctuation, left<->right, swapped arguments)
+    import roles as _roles
+    _roles.rule_R_ROLE(ctx, modules=('enum_narsese::',))
+    _roles.rule_A_NAMES(ctx, modules=('enum_narsese::',))
     ctx.undecided = ["nothing value-dependent beyond the induction over nesting depth; std HashSet::eq is trusted to implement set equality "
                      "given a Hash consistent with Eq (which the H-* premises establish)"]
     ctx.assumptions = ["std HashSet<T>::eq = same length and every element of one contained in the other", "String/usize equality is the identity relation"]
